@@ -201,12 +201,20 @@ def check_gctm(pc, rng):
     # equivalent-layers starting guess of the optimiser is that far off (the unchanged code stays below 2e-2 on such profiles)
     def momerr(hx, cx, L_):
         return max(abs((cx * (hx / 1e4) ** k).sum() - (p * (h / 1e4) ** k).sum()) / (p * (h / 1e4) ** k).sum() for k in range(2 * L_ - 1))
+    n_out_of_scope = 0
     for t in range(getattr(check_gctm, "n_random", 24)):
         N, L = int(rng.integers(20, 41)), int(rng.integers(3, 7))
         kind = t % 4
         h = np.linspace(0, 20000.0, N) if kind == 0 else np.sort(rng.uniform(0, 1, N) ** kind * 20000.0)
         h[0] = 0.0
         p = rng.uniform(0.01, 1.0, N) ** 3 * (1e-13 if t % 2 else 1e-14)
+        # the statement's scope for this method: all L equal-thickness slabs of the profile are non-empty (its starting guess needs that)
+        edges = h.min() + (h.max() - h.min()) / L * np.arange(L + 1)
+        occupied = np.histogram(h, bins=edges)[0]
+        g0 = pc.equivalent_layers(h.copy(), p.copy(), L)
+        if occupied.min() == 0 or not np.all(np.isfinite(np.asarray(g0[0], float))) or np.any(np.asarray(g0[1], float) <= 0):
+            n_out_of_scope += 1
+            continue
         out = pc.GCTM(h.copy(), p.copy(), L)
         hh, cc = np.asarray(out[0], float), np.asarray(out[1], float)
         n += 1
@@ -242,6 +250,7 @@ def check_gctm(pc, rng):
                 bad.append(("GCTM:optional-scaling-changes-the-profile:" + label, dict(L=L, h=hh.tolist(), cn2=cc.tolist(), rel=float(momerr(hh, cc, L)))))
                 break
     check_gctm.worst = worst
+    check_gctm.out_of_scope = n_out_of_scope
     return bad, n
 
 
@@ -330,7 +339,7 @@ def run(run):
             bad, ng = check_gctm(pc, rng)
             for key, detail in bad:
                 run.violation(key, detail, dict(kind="gctm"))
-    run.aux.update(cases_by_kind=kinds, real_global_seed_runs=real, gctm_cases=ng, gctm_worst_moment_error=getattr(check_gctm, 'worst', None))
+    run.aux.update(cases_by_kind=kinds, real_global_seed_runs=real, gctm_cases=ng, gctm_worst_moment_error=getattr(check_gctm, 'worst', None), gctm_random_profiles_outside_scope=getattr(check_gctm, 'out_of_scope', None))
     run.traces += real
     run.assumptions += [
         "GCTM: 'exactly L' and non-negativity are checked; reproducing 2L-1 moments is optimiser accuracy - asserted only as an "
